@@ -44,3 +44,12 @@ package htmldoc
 //@   requires 0 <= m1 && m1 <= m2 && m2 <= 3
 //@   ensures monotone: exclF(m1, isElem, e, p, d) ==> exclF(m2, isElem, e, p, d)
 //@   ensures none_excludes_nothing: !exclF(0, isElem, e, p, d)
+
+// ---- C15: table-cell text cannot break a pipe table ----
+// no line break survives and every '|' is escaped by a preceding backslash
+//@ spec func cellSafeAt(s string, k int) bool = s[k] != 10 && s[k] != 13 && (s[k] == '|' ==> k >= 1 && s[k-1] == 92)
+//@ func escapeMarkdown results (res)
+//@   property C15
+//@   ensures cell_safe: forall k int :: {res[k]} 0 <= k && k < len(res) ==> cellSafeAt(res, k)
+//@   loop 0:
+//@     invariant forall k int :: {result[k]} 0 <= k && k < len(result) ==> cellSafeAt(result, k)
